@@ -29,10 +29,13 @@ Next == n < Len(Recs) /\ n' = n + 1
 Spec == Init /\ [][Next]_n
 
 \* always TRUE; prints the failing clauses of record n
+\* records with stage = "app" come from the whole application (passage::start on loopback, a real login): the filter output is not
+\* observable there (obs.filtered is <<>>), only where the player was sent
+IsApp(rec) == "stage" \in DOMAIN rec /\ rec.stage = "app"
 Judge == n >= 1 =>
-  LET o == DecisionOf(Recs[n])  bad == R!Failing(o) IN
+  LET o == DecisionOf(Recs[n])  bad == IF IsApp(Recs[n]) THEN R!FailingChoice(o) ELSE R!Failing(o) IN
   /\ (bad = {} \/ PrintT(<<"FAIL", ToJson([line |-> n, clauses |-> bad])>>))
-  /\ (bad # {} \/ ~R!FilterDrift(o) \/ PrintT(<<"DRIFT", ToJson([line |-> n])>>))
+  /\ (bad # {} \/ IsApp(Recs[n]) \/ ~R!FilterDrift(o) \/ PrintT(<<"DRIFT", ToJson([line |-> n])>>))
 
 AllConsumed == TLCGet("stats").diameter = Len(Recs) + 1 \/ PrintT(<<"NOTCONSUMED", ToJson([d |-> TLCGet("stats").diameter])>>)
 =============================================================================
